@@ -27,12 +27,15 @@ Proved for all journals, valuation commodities and days:
 The induction over days that composes `C03_telescope` with the per-step truncation bound into
 `|W − Q·p| ≤ steps · 10⁻⁸` is `C03_mtm_bound` / `C03_mtm_bound_window` in `Properties/C03Bound.lean`, proved for a
 single-position valuation trace whose terms are shown to be the model's (`C03_adjustment_term`,
-`C03_booked_term`).  `Properties/C03Bridge.lean` projects `Balance.run` onto one position and proves the bound for the
-pipeline model itself (`C03_run_mtm_bound`).  The bound is additionally decided on every run:
-the monitor `shown_equals_mark_to_market` evaluates `Spec.mtm` exactly (in Lean) and compares it with every
-A/L cell of the REAL report.  The literal reading of the property (absolute mark-to-market) fails whenever a
-position exists before the window start (`--from`): the report shows the value change inside the window.
-That is design behaviour of knut and recorded as known finding `window-start-after-position`.
+`C03_booked_term`).  `Properties/C03Bridge.lean` projects `Balance.run` onto one position (`C03_run_mtm_bound`),
+`Properties/C03Window.lean` does so for every window (`C03_run_window`: the report shows the value change inside the
+window), `Properties/C03Report.lean` carries it to the cells of the rendered table against `Spec.mtm` with the explicit
+bound `Spec.stepBound` (`C03_command_cell`), `Properties/C03Command.lean` holds the remaining clauses at command level
+(`C03_command_missing_price`, `C03_gain_mirrors_adjustments`, `C03_command_flow_cell_noclose_partial`).  The monitors
+evaluate `Spec.mtm`, `Spec.stepBound`, `Spec.flowAt` exactly (in Lean) and compare them with the cells of the REAL
+report.  The literal reading of the property (absolute mark-to-market) fails whenever a position exists before the
+window start (`--from`): the report shows the value change inside the window.  That is design behaviour of knut,
+recorded as known finding `window-start-after-position`, and exactly what `C03_command_cell` states.
 -/
 namespace Knut.C03
 open Knut Knut.Dec
